@@ -49,6 +49,18 @@ CHECKS = {
    design_ref="DESIGN.md section 4 C20",
    technique="Rocq proof: state-machine invariants and induction over fault lists; measured-parameter reflection; real-time correspondence against a scripted fake provider",
    note="the hourly refresh tick is exercised through an accessor that copies the loop body; 30 s pause cap and 5 min cut-off transcribed from source; " + COMMON_NOTE),
+ "C05": dict(
+   text="PARTIAL. Proved (Properties/C05.v): for any number of in-flight handlers that use a pooled session object only between taking it "
+        "from the pool and putting it back, and for EVERY schedule, every read a handler makes returns what that handler itself wrote "
+        "(no other request's state, nonce, tokens or identity) and every object is in the pool or owned by exactly one handler; the "
+        "pinned 'Clear puts the object back' discipline is refuted by a two-request schedule. Tied to the code by source-text facts "
+        "(tools/poolfacts: every sessionPool.Put is in GetSession, on a local object, followed by 'return nil'), re-extracted on every run. "
+        "Runtime part (testing, labelled): 16 deterministic pause/resume schedules (request A paused at its k-th response write while "
+        "request B of another browser completes) and a -race stress run of concurrent logins/refreshes/logouts with a per-response "
+        "consistency monitor, panic recovery and a deadlock watchdog.",
+   design_ref="DESIGN.md section 4 C05",
+   technique="Rocq proof: ownership invariant over all schedules; go/ast source facts; deterministic-schedule and -race stress runs (testing)",
+   note="data races between yield points, the Go memory model and runtime aborts cannot be exhibited by any Gallina model; caches/limiter treated as atomic objects (C13 lock theorem); the hourly metadata refresh goroutine is not simulated; " + COMMON_NOTE),
  "C12": dict(
    text="Theorems (Properties/C12.v) prove, for the executable model of cache.go and for every capacity and every finite "
         "history of Set/Get/Delete/Cleanup of any length, that every lookup returns only the latest stored, undeleted, "
